@@ -71,6 +71,52 @@ Proof.
   inversion H'; auto.
 Qed.
 
+Section Split.
+  Context {N : Num}.
+  Variable eps : T N.
+  Notation split_guarded := (split_guarded eps).
+  (* C01's split_interior for the guarded split: whatever the values (NaN included) *)
+  Lemma split_interior (d : list (T N)) : 3 <= length d -> 1 <= split_guarded d <= length d - 2.
+  Proof.
+    intros H. unfold RdpFixed.split_guarded. destruct (all_lt d eps).
+    - pose proof (Nat.div_mod (length d) 2 ltac:(lia)).
+      pose proof (Nat.mod_upper_bound (length d) 2 ltac:(lia)). lia.
+    - assert (interior d <> []).
+      { intros E. pose proof (interior_length d) as HL. rewrite E in HL. cbn in HL. lia. }
+      pose proof (argmax_lt (interior d) H0). rewrite interior_length in H1. lia.
+  Qed.
+
+  (* Tier O: the farthest-point clause is a property of the guarded split alone *)
+  Lemma nth_interior (d : list (T N)) i : i < length (interior d) -> nth (S i) d zero = nth i (interior d) zero.
+  Proof.
+    intros H. rewrite interior_length in H. destruct d as [|a d]; [cbn in H; lia|]. cbn [nth]. unfold interior. cbn [tl].
+    destruct d as [|b d] using rev_ind; [cbn in H; lia|]. rewrite removelast_last.
+    cbn [length] in H. rewrite app_length in H. cbn in H. rewrite app_nth1; [reflexivity|lia].
+  Qed.
+  Theorem split_farthest (P : T N -> Prop) (d : list (T N)) :
+    TotalPreorderOn P -> (forall x, P x -> isnan x = false) ->
+    all_lt d eps = false -> Forall P (interior d) ->
+    Forall (fun x => x <=?! nth (split_guarded d) d zero = true) (interior d).
+  Proof.
+    intros HP Pnn Hall HF. unfold RdpFixed.split_guarded. rewrite Hall.
+    destruct (interior d) eqn:E; [constructor|]. rewrite <- E in *.
+    rewrite nth_interior; [|apply argmax_lt; rewrite E; discriminate].
+    apply (argmax_max P HP Pnn). exact HF.
+  Qed.
+
+  (* Tier O on the non-NaN interior distances; unless the eps-guard picked the middle *)
+  Theorem fixed_farthest (d : list (T N)) :
+    TotalPreorderOn (@notnan N) ->
+    (all_lt d eps = true -> split_guarded d = length d / 2) /\
+    (all_lt d eps = false -> Forall notnan (interior d) ->
+     Forall (fun x => x <=?! nth (split_guarded d) d zero = true) (interior d)).
+  Proof.
+    intros HO. split.
+    - intros H. unfold RdpFixed.split_guarded. rewrite H. reflexivity.
+    - intros H HF. eapply split_farthest; eauto.
+  Qed.
+End Split.
+
 Section Facts.
   Context {N : Num}.
   Variable n : nat.
@@ -84,16 +130,6 @@ Section Facts.
   Notation body := (body eps dist prio).
   Notation split_guarded := (split_guarded eps).
 
-  (* C01's split_interior for the guarded split: whatever the values (NaN included) *)
-  Lemma split_interior (d : list (T N)) : 3 <= length d -> 1 <= split_guarded d <= length d - 2.
-  Proof.
-    intros H. unfold RdpFixed.split_guarded. destruct (all_lt d eps).
-    - pose proof (Nat.div_mod (length d) 2 ltac:(lia)).
-      pose proof (Nat.mod_upper_bound (length d) 2 ltac:(lia)). lia.
-    - assert (interior d <> []).
-      { intros E. pose proof (interior_length d) as HL. rewrite E in HL. cbn in HL. lia. }
-      pose proof (argmax_lt (interior d) H0). rewrite interior_length in H1. lia.
-  Qed.
 
   (* the key a segment carries on the stack: the root is seeded with 0, children with their priority *)
   Definition key (l r : nat) : T N := if (l =? 0) && (r =? n) then zero else prio l r.
@@ -151,7 +187,7 @@ Section Facts.
     assert (Hin : In (p, (l, r)) (st0 ++ [(p, (l, r))])) by (apply in_or_app; right; left; auto).
     destruct (inv_st _ _ HI p l r Hin) as (Hp & Hw & Hadj).
     pose proof (Inv_r_le _ _ _ _ _ HI Hin) as Hrn.
-    pose proof (split_interior (dist l r) ltac:(rewrite Hshape; lia)) as Hidx. rewrite Hshape in Hidx by lia.
+    pose proof (split_interior eps (dist l r) ltac:(rewrite Hshape; lia)) as Hidx. rewrite Hshape in Hidx by lia.
     set (idx := split_guarded (dist l r)) in *.
     set (g := l + idx).
     assert (Hg : l < g < r - 1) by (unfold g; lia).
@@ -362,23 +398,6 @@ Section Facts.
     - unfold Sk. replace (k + 1 - 2) with (S (k - 2)) by lia. rewrite state_at_S. exact E.
   Qed.
 
-  (* Tier O: the farthest-point clause is a property of the guarded split alone *)
-  Lemma nth_interior (d : list (T N)) i : i < length (interior d) -> nth (S i) d zero = nth i (interior d) zero.
-  Proof.
-    intros H. rewrite interior_length in H. destruct d as [|a d]; [cbn in H; lia|]. cbn [nth]. unfold interior. cbn [tl].
-    destruct d as [|b d] using rev_ind; [cbn in H; lia|]. rewrite removelast_last.
-    cbn [length] in H. rewrite app_length in H. cbn in H. rewrite app_nth1; [reflexivity|lia].
-  Qed.
-  Theorem split_farthest (P : T N -> Prop) (d : list (T N)) :
-    TotalPreorderOn P -> (forall x, P x -> isnan x = false) ->
-    all_lt d eps = false -> Forall P (interior d) ->
-    Forall (fun x => x <=?! nth (split_guarded d) d zero = true) (interior d).
-  Proof.
-    intros HP Pnn Hall HF. unfold RdpFixed.split_guarded. rewrite Hall.
-    destruct (interior d) eqn:E; [constructor|]. rewrite <- E in *.
-    rewrite nth_interior; [|apply argmax_lt; rewrite E; discriminate].
-    apply (argmax_max P HP Pnn). exact HF.
-  Qed.
 
   (* Tier O: the stack is sorted by priority, so the popped segment has maximal priority *)
   Section Greedy.
@@ -547,9 +566,11 @@ Section Facts.
     assert (Hlen : length (snd (state_at j)) = j + 2).
     { apply nonempty_prefix_length. intros j' Hj'. apply (Hbefore j' Hj'). }
     pose proof (Inv_len_le _ _ (state_at_inv j)) as Hle.
-    exists (j + 2). unfold Sk. replace (j + 2 - 2) with j by lia. split; [|exact E].
+    exists (j + 2). replace (j + 2 - 2) with j by lia.
+    assert (HSk : Sk (j + 2) = snd (state_at j)) by (unfold Sk; replace (j + 2 - 2) with j by lia; reflexivity).
+    unfold FirstAcc. rewrite HSk. split; [|exact E].
     split; [lia|]. split.
-    - intros i Hi. replace (i - 2) with (i - 2 + 0) by lia. apply (Hbefore (i - 2)). lia.
+    - intros i Hi. unfold Sk. apply (Hbefore (i - 2)). lia.
     - destruct Hat as [Hat|Hat]; [left; exact Hat|right].
       pose proof (state_at_inv j) as HI. unfold InvS in HI. rewrite Hat in HI. apply Inv_empty_full in HI. lia.
   Qed.
@@ -591,3 +612,190 @@ Section Facts.
     exists red, mp_grdp t fuel m = Some (red, rows red) /\ WF n red.
   Proof. intros Hf. destruct (mp_grdp_spec t fuel m Hf) as (k & _ & E). eexists. split; [exact E|apply Sk_WF]. Qed.
 End Facts.
+
+(* ---- the computable k* and the multi-threshold variant ---- *)
+Section MinPoint.
+  Context {N : Num}.
+  Variable n : nat.
+  Variable eps : T N.
+  Variable dist : nat -> nat -> list (T N).
+  Variable prio : nat -> nat -> T N.
+  Variable gcost : list nat -> T N.
+  Hypothesis Hn : 2 <= n.
+  Hypothesis Hshape : forall l r, l + 3 <= r -> r <= n -> length (dist l r) = r - l.
+  Notation Sk := (Sk n eps dist prio).
+
+  (* least k in [2,n] with S_k accepting, else n — by linear search *)
+  Fixpoint kstar_go (is_r2 : bool) (t : T N) (k cnt : nat) : nat :=
+    match cnt with
+    | O => k
+    | S c => if curved is_r2 t (gcost (Sk k)) then kstar_go is_r2 t (S k) c else k
+    end.
+  Definition kstar (is_r2 : bool) (t : T N) : nat := kstar_go is_r2 t 2 (n - 2).
+
+  Lemma kstar_go_spec is_r2 t : forall cnt k, k + cnt = n -> 2 <= k ->
+    (forall j, 2 <= j < k -> curved is_r2 t (gcost (Sk j)) = true) ->
+    FirstAcc n eps dist prio gcost is_r2 t (kstar_go is_r2 t k cnt).
+  Proof.
+    induction cnt as [|c IH]; intros k Hk H2 Hb; cbn [kstar_go].
+    - split; [lia|]. split; [exact Hb|right; lia].
+    - destruct (curved is_r2 t (gcost (Sk k))) eqn:C.
+      + apply IH; [lia|lia|]. intros j Hj. destruct (Nat.eq_dec j k) as [->|]; [exact C|apply Hb; lia].
+      + split; [lia|]. split; [exact Hb|left; exact C].
+  Qed.
+  Lemma kstar_FirstAcc is_r2 t : FirstAcc n eps dist prio gcost is_r2 t (kstar is_r2 t).
+  Proof. apply kstar_go_spec; [lia|lia|intros j Hj; lia]. Qed.
+
+  Theorem grdp_kstar is_r2 t fuel : n <= fuel ->
+    grdp n eps dist prio gcost is_r2 t fuel = Some (Sk (kstar is_r2 t), rows (Sk (kstar is_r2 t))).
+  Proof.
+    intros Hf. destruct (grdp_first_accepting n eps dist prio Hn Hshape gcost is_r2 t fuel Hf) as (k & HF & E).
+    assert (kstar is_r2 t = k) as -> by (apply (FirstAcc_unique n eps dist prio Hn gcost is_r2 t); [apply kstar_FirstAcc|exact HF]). exact E.
+  Qed.
+  Theorem mp_grdp_kstar is_r2 t fuel m : n <= fuel ->
+    let k := Nat.max (kstar is_r2 t) (Nat.min m n) in
+    mp_grdp n eps dist prio gcost is_r2 t fuel m = Some (Sk k, rows (Sk k)).
+  Proof.
+    intros Hf. destruct (mp_grdp_spec n eps dist prio Hn Hshape gcost is_r2 t fuel m Hf) as (k & HF & E).
+    assert (kstar is_r2 t = k) as -> by (apply (FirstAcc_unique n eps dist prio Hn gcost is_r2 t); [apply kstar_FirstAcc|exact HF]). exact E.
+  Qed.
+
+  (* thresholds in the order they are tried: the first whose k* reaches m, else m itself *)
+  Fixpoint mp_pick (m : nat) (ts : list (T N)) : nat :=
+    match ts with
+    | [] => m
+    | t :: ts' => if m <=? kstar false t then kstar false t else mp_pick m ts'
+    end.
+  Lemma min_point_go_spec fuel m : n <= fuel -> forall ts,
+    min_point_go n eps dist prio gcost fuel m ts = Some (Sk (mp_pick m ts), rows (Sk (mp_pick m ts))).
+  Proof.
+    intros Hf. induction ts as [|t ts IH]; cbn [min_point_go mp_pick].
+    - apply rdp_fixed_spec; auto.
+    - rewrite grdp_kstar by exact Hf. rewrite Sk_length by auto.
+      pose proof (kstar_FirstAcc false t) as (Hk & _).
+      replace (Nat.min (Nat.max (kstar false t) 2) n) with (kstar false t) by lia.
+      destruct (m <=? kstar false t); [reflexivity|exact IH].
+  Qed.
+  (* C06, third clause *)
+  Theorem min_point_rdp_spec fuel ts m : n <= fuel ->
+    let k := mp_pick m (sort_desc ts) in
+    min_point_rdp n eps dist prio gcost fuel ts m = Some (Sk k, rows (Sk k)).
+  Proof. intros Hf. apply min_point_go_spec. exact Hf. Qed.
+  Theorem min_point_rdp_total fuel ts m : n <= fuel ->
+    exists red, min_point_rdp n eps dist prio gcost fuel ts m = Some (red, rows red) /\ WF n red.
+  Proof. intros Hf. eexists. split; [apply min_point_rdp_spec; exact Hf|apply Sk_WF; auto]. Qed.
+End MinPoint.
+
+
+(* ---- the statements of C05 / C06 on the model functions themselves ---- *)
+Section Statements.
+  Context {N : Num}.
+  Variable n : nat.
+  Variable eps : T N.
+  Variable dist : nat -> nat -> list (T N).
+  Variable prio : nat -> nat -> T N.
+  Hypothesis Hn : 2 <= n.
+  Hypothesis Hshape : forall l r, l + 3 <= r -> r <= n -> length (dist l r) = r - l.
+  Notation rdp_fixed := (rdp_fixed n eps dist prio).
+  Notation Sk := (Sk n eps dist prio).
+
+  Theorem fixed_size fuel k : n <= fuel ->
+    exists red, rdp_fixed fuel k = Some (red, rows red) /\ WF n red /\ length red = Nat.min (Nat.max k 2) n.
+  Proof.
+    intros Hf. exists (Sk k). split; [apply rdp_fixed_spec; auto|]. split; [apply Sk_WF; auto|apply Sk_length; auto].
+  Qed.
+
+  Theorem fixed_nested fuel k : n <= fuel -> 2 <= k -> k < n ->
+    exists red a b,
+      rdp_fixed fuel k = Some (red, rows red) /\ In (a, b) (adj_pairs red) /\ a + 2 <= b /\
+      a < a + split_guarded eps (dist a (b + 1)) < b /\
+      rdp_fixed fuel (k + 1) = Some (insert_nat (a + split_guarded eps (dist a (b + 1))) red,
+                                     rows (insert_nat (a + split_guarded eps (dist a (b + 1))) red)).
+  Proof.
+    intros Hf H2 Hk. destruct (Sk_nested n eps dist prio Hn Hshape k H2 Hk) as (a & b & Hin & Hw & Hg & E).
+    exists (Sk k), a, b. split; [apply rdp_fixed_spec; auto|]. split; [exact Hin|]. split; [exact Hw|]. split; [exact Hg|].
+    rewrite <- E. apply rdp_fixed_spec; auto.
+  Qed.
+
+  (* Tier O on the priorities present *)
+  Theorem fixed_greedy fuel k :
+    TotalPreorderOn (@notnan N) -> notnan (@zero N) -> (forall l r, notnan (prio l r)) ->
+    n <= fuel -> 2 <= k -> k < n ->
+    exists red a b,
+      rdp_fixed fuel k = Some (red, rows red) /\ In (a, b) (adj_pairs red) /\ a + 2 <= b /\
+      rdp_fixed fuel (k + 1) = Some (insert_nat (a + split_guarded eps (dist a (b + 1))) red,
+                                     rows (insert_nat (a + split_guarded eps (dist a (b + 1))) red)) /\
+      forall a' b', In (a', b') (adj_pairs red) -> a' + 2 <= b' ->
+        (a' = a /\ b' = b) \/ prio a' (b' + 1) <=?! prio a (b + 1) = true.
+  Proof.
+    intros HO Hz Hp Hf H2 Hk.
+    destruct (Sk_greedy n eps dist prio Hn Hshape notnan HO Hz Hp k H2 Hk) as (a & b & Hin & Hw & E & Hmax).
+    exists (Sk k), a, b. split; [apply rdp_fixed_spec; auto|]. split; [exact Hin|]. split; [exact Hw|]. split; [|exact Hmax].
+    rewrite <- E. apply rdp_fixed_spec; auto.
+  Qed.
+
+End Statements.
+
+Section Statements6.
+  Context {N : Num}.
+  Variable n : nat.
+  Variable eps : T N.
+  Variable dist : nat -> nat -> list (T N).
+  Variable prio : nat -> nat -> T N.
+  Variable gcost : list nat -> T N.
+  Hypothesis Hn : 2 <= n.
+  Hypothesis Hshape : forall l r, l + 3 <= r -> r <= n -> length (dist l r) = r - l.
+  Notation rdp_fixed := (rdp_fixed n eps dist prio).
+  Notation grdp := (grdp n eps dist prio gcost).
+  Notation mp_grdp := (mp_grdp n eps dist prio gcost).
+  Notation Sk := (Sk n eps dist prio).
+
+  (* k is the least k in [2,n] whose fixed-size result is on the accepting side of t, else n *)
+  Definition first_acc_k (is_r2 : bool) (t : T N) (fuel k : nat) : Prop :=
+    2 <= k <= n /\
+    (forall j, 2 <= j < k -> curved is_r2 t (gcost (red_of (rdp_fixed fuel j))) = true) /\
+    (curved is_r2 t (gcost (red_of (rdp_fixed fuel k))) = false \/ k = n).
+
+  Lemma FirstAcc_first_acc_k is_r2 t fuel k : n <= fuel ->
+    FirstAcc n eps dist prio gcost is_r2 t k -> first_acc_k is_r2 t fuel k.
+  Proof.
+    intros Hf (H1 & H2 & H3). split; [exact H1|]. split.
+    - intros j Hj. rewrite rdp_fixed_spec by auto. cbn [red_of]. apply H2. exact Hj.
+    - rewrite rdp_fixed_spec by auto. exact H3.
+  Qed.
+
+  Theorem grdp_first_accepting_stmt is_r2 t fuel : n <= fuel ->
+    exists k, first_acc_k is_r2 t fuel k /\ grdp is_r2 t fuel = rdp_fixed fuel k.
+  Proof.
+    intros Hf. destruct (grdp_first_accepting n eps dist prio Hn Hshape gcost is_r2 t fuel Hf) as (k & HF & E).
+    exists k. split; [apply FirstAcc_first_acc_k; auto|]. rewrite E, rdp_fixed_spec by auto. reflexivity.
+  Qed.
+  Theorem mp_grdp_spec_stmt is_r2 t fuel m : n <= fuel ->
+    exists k, first_acc_k is_r2 t fuel k /\ mp_grdp is_r2 t fuel m = rdp_fixed fuel (Nat.max k (Nat.min m n)).
+  Proof.
+    intros Hf. destruct (mp_grdp_spec n eps dist prio Hn Hshape gcost is_r2 t fuel m Hf) as (k & HF & E).
+    exists k. split; [apply FirstAcc_first_acc_k; auto|]. rewrite E, rdp_fixed_spec by auto. reflexivity.
+  Qed.
+  Lemma first_acc_k_unique is_r2 t fuel k k' : first_acc_k is_r2 t fuel k -> first_acc_k is_r2 t fuel k' -> k = k'.
+  Proof.
+    intros (H1 & H2 & H3) (H1' & H2' & H3').
+    destruct (lt_eq_lt_dec k k') as [[Hlt|Heq]|Hgt]; auto.
+    - specialize (H2' k ltac:(lia)). destruct H3 as [H3|H3]; [congruence|lia].
+    - specialize (H2 k' ltac:(lia)). destruct H3' as [H3'|H3']; [congruence|lia].
+  Qed.
+
+  (* the multi-threshold variant: thresholds in descending (stable) order; the first whose global-RDP result has
+     at least m indices, else the fixed-size result for m *)
+  Theorem min_point_rdp_spec_stmt fuel ts m : n <= fuel ->
+    min_point_rdp n eps dist prio gcost fuel ts m =
+      match find (fun o => m <=? length (red_of o)) (map (fun t => grdp false t fuel) (sort_desc ts)) with
+      | Some o => o
+      | None => rdp_fixed fuel m
+      end.
+  Proof.
+    intros Hf. unfold min_point_rdp. induction (sort_desc ts) as [|t l IH]; [reflexivity|].
+    cbn [min_point_go map find].
+    destruct (grdp_total n eps dist prio Hn Hshape gcost false t fuel Hf) as (red & E & _). rewrite E. cbn [red_of].
+    destruct (m <=? length red); [reflexivity|exact IH].
+  Qed.
+End Statements6.
